@@ -424,6 +424,18 @@ pub fn nested_candidates(point: Point, top: Ev, before: &Snap, max_len: usize) -
                 out.push(vec![Ev::Complete(*c)]);
             }
         }
+        Point::AfterStopWake => {
+            // the accept loop handles Stop (and exits, closing every worker's connection channel)
+            // before the server task has told the workers to stop
+            out.push(vec![Ev::AcceptTurn]);
+            if max_len >= 2 {
+                for w in &before.workers {
+                    if w.view.is_some() {
+                        out.push(vec![Ev::AcceptTurn, Ev::WorkerTurn(w.slot)]);
+                    }
+                }
+            }
+        }
         Point::AfterDec(_) | Point::AfterPush => {
             if !top_is_accept {
                 out.push(vec![Ev::AcceptTurn]);
